@@ -82,6 +82,25 @@ CHECKS = {
             'prove absence.',
             'Trusted: the 120-line model in checks/c10.py; Hypothesis; harness table in vlib/htables.py.',
             'DESIGN.md section 4, C10'),
+    'C11': ('Hypothesis ledger generation (structured description -> Beancount text -> loader) with a beanquery-free traversal oracle for every column of every table and every metadata function',
+            'For each generated ledger every column of postings, entries, transactions, prices, balances, notes, events, '
+            'documents, accounts and commodities is selected and compared value by value with attributes read directly '
+            'from the loaded directives (position, weight, other_accounts, id, location, date parts, tags, links, running '
+            'balance), and meta / entry_meta / any_meta / open_meta / commodity_meta / open_date / close_date / subscripts '
+            'with dictionary lookups, including postings stripped of their metadata. Bounded ledgers (<= 10 transactions).',
+            'Trusted: the Beancount loader and booking; the traversal in checks/c11.py; columns without an oracle are listed '
+            'in the evidence (currently none).',
+            'DESIGN.md section 4, C11'),
+    'C12': ('Hypothesis ledgers + selections with Python twin predicates; direct Inventory oracle, homomorphism (f(sum)=sum(f)) and partition additivity as metamorphic relations, prefix-sum model for the running balance',
+            'On generated multi-currency ledgers with dated lots, reducing sales and prices in two quote currencies: sums of '
+            'position/units/cost/weight/price equal Inventories built directly from the selected postings; units, cost, value '
+            'and convert (with and without date) commute with sum exactly; group sums over five partitions add up to the '
+            'total; balance equals the prefix sum in every column mentioning it (also around an IN-subquery scanning '
+            'postings), its last value equals sum(position), and under a WHERE that consults it first it counts every '
+            'scanned posting.',
+            'Trusted: beancount.core Inventory/convert/prices as the meaning of inventory sums and conversions; rates are '
+            'finite decimals by construction so equality is exact.',
+            'DESIGN.md section 4, C12'),
     'C15': ('enumerated pivot-position x reference-form matrix + Hypothesis table/query generation; expected pivot computed from the un-pivoted engine result (itself checked against the reference model); un-pivot round trip; enumerated invalid references',
             'The pivoted result is compared (names, datatypes, rows, NULL fill, ascending block order incl. multi-digit '
             'integers) with a reshaping of the un-pivoted result of the same query, un-pivoting must give every original '
